@@ -246,7 +246,7 @@ pub fn run(ctx: &Ctx) {
             true,
         );
     }
-    let n: u32 = ctx.tier.pick(3_000, 60_000);
+    let n: u32 = ctx.tier.pick(12_000, 120_000);
     ctx.proptest("pt-window", n, || (0u8..3, proptest::collection::vec(op_strategy(), 0..400)), |(cipher, ops)| {
         // map delivery indices monotonically onto what has been sealed so far
         let mut sealed = 0usize;
